@@ -74,6 +74,76 @@ func PutBits(buf []byte, pos, n int, v uint64) {
 	}
 }
 
+// Twin returns a different valid frame with the same leader, the same message
+// type and the SAME CRC-24Q as the given valid frame (nil if the payload is too
+// short).  Some payload bits after the type are changed and the last three
+// payload bytes are then solved for, using the linearity of the CRC: anything
+// that identifies a frame by its checksum alone confuses the two.
+func Twin(t *rt.Tape, frame []byte) []byte {
+	n := len(frame) - 6
+	if !IsValidFrame(frame) || n < 6 {
+		return nil
+	}
+	b := append([]byte(nil), frame...)
+	// change 1..3 bytes between the type and the three solving bytes
+	lo, hi := 3+2, 3+n-3 // [lo,hi) are free payload bytes
+	for k := 1 + t.S(3); k > 0; k-- {
+		b[lo+t.S(hi-lo)] ^= byte(1 + t.S(255))
+	}
+	for i := hi; i < hi+3; i++ {
+		b[i] = 0
+	}
+	want := uint32(frame[3+n])<<16 | uint32(frame[3+n+1])<<8 | uint32(frame[3+n+2])
+	diff := CRC24Q(b[:3+n]) ^ want
+	// crc(prefix||x) = crc(prefix||000) xor M(x), M linear and invertible: solve M(x) = diff
+	var col [24]uint32
+	for i := 0; i < 24; i++ {
+		var x [3]byte
+		x[i/8] = 0x80 >> uint(i%8)
+		col[i] = CRC24Q(x[:])
+	}
+	// Gaussian elimination over GF(2) on the 24x24 system sum_i x_i*col[i] = diff
+	type row struct{ mask, val uint32 } // mask: which x_i, val: resulting crc bits
+	var basis [24]row
+	var have [24]bool
+	for i := 0; i < 24; i++ {
+		r := row{1 << uint(i), col[i]}
+		for bit := 23; bit >= 0; bit-- {
+			if r.val>>uint(bit)&1 == 0 {
+				continue
+			}
+			if !have[bit] {
+				basis[bit], have[bit] = r, true
+				break
+			}
+			r.mask ^= basis[bit].mask
+			r.val ^= basis[bit].val
+		}
+	}
+	var sol uint32
+	v := diff
+	for bit := 23; bit >= 0; bit-- {
+		if v>>uint(bit)&1 == 1 {
+			if !have[bit] {
+				return nil
+			}
+			v ^= basis[bit].val
+			sol ^= basis[bit].mask
+		}
+	}
+	for i := 0; i < 24; i++ {
+		if sol>>uint(i)&1 == 1 {
+			b[hi+i/8] |= 0x80 >> uint(i%8)
+		}
+	}
+	c := CRC24Q(b[:3+n])
+	if c != want || string(b) == string(frame) {
+		return nil
+	}
+	b[3+n], b[3+n+1], b[3+n+2] = byte(c>>16), byte(c>>8), byte(c)
+	return b
+}
+
 const (
 	KindFrame   = "frame"   // valid RTCM3 frame
 	KindJunk    = "junk"    // other data without any 0xD3 byte
